@@ -4,6 +4,9 @@ import (
 	"bytes"
 	"fmt"
 	"io"
+	"os"
+	"os/exec"
+	"path/filepath"
 	"strconv"
 	"strings"
 
@@ -287,4 +290,74 @@ func arReadable(op string, a []string) string {
 		return fmt.Sprintf("%s(%q)", op, core.MustUnHex(a[0]))
 	}
 	return op
+}
+
+// arByTool builds an archive with the system's /usr/bin/ar (GNU format) from files in a
+// scratch directory: an independent writer of the format.
+func arByTool(r *core.Rand) ([]byte, []string) {
+	dir, err := os.MkdirTemp("", "verif-ar-")
+	if err != nil {
+		return nil, nil
+	}
+	defer os.RemoveAll(dir)
+	var names, law []string
+	used := map[string]bool{}
+	for n := r.Range(1, 4); n > 0; n-- {
+		name := r.Str("abcxyz._-0", r.Range(1, 15))
+		if used[name] || strings.HasPrefix(name, "-") || name == "." || name == ".." {
+			continue
+		}
+		used[name] = true
+		data := r.Str("ab\n\x00\xff`", r.Pick2(r.Intn(4), r.Intn(200)))
+		os.WriteFile(filepath.Join(dir, name), []byte(data), 0o644)
+		names = append(names, name)
+		law = append(law, core.Hex(name), core.Hex(data))
+	}
+	if len(names) == 0 {
+		return nil, nil
+	}
+	cmd := exec.Command("ar", append([]string{"rcD", "out.a"}, names...)...)
+	cmd.Dir = dir
+	if cmd.Run() != nil {
+		return nil, nil
+	}
+	b, _ := os.ReadFile(filepath.Join(dir, "out.a"))
+	return b, law
+}
+
+func init() {
+	// law: an archive written by the system's ar reads back as its files
+	arImpl["law-arfiles"] = func(a []string) string {
+		data := []byte(core.MustUnHex(a[0]))
+		ar, err := deb.LoadAr(bytes.NewReader(data))
+		if err != nil {
+			return "FAIL " + err.Error()
+		}
+		want := a[1:]
+		for i := 0; i+1 < len(want); i += 2 {
+			e, err := ar.Next()
+			if err != nil {
+				return fmt.Sprintf("FAIL member %d: %v", i/2, err)
+			}
+			b, _ := io.ReadAll(e.Data)
+			if e.Name != core.MustUnHex(want[i]) || string(b) != core.MustUnHex(want[i+1]) || e.Size != int64(len(b)) {
+				return fmt.Sprintf("FAIL member %d: name %q, %d bytes", i/2, e.Name, len(b))
+			}
+		}
+		if _, err := ar.Next(); err != io.EOF {
+			return fmt.Sprintf("FAIL no end of archive: %v", err)
+		}
+		return "ok"
+	}
+}
+
+func streamArTool(g *core.G) {
+	for i := g.N(40, 3000); i > 0; i-- {
+		b, law := arByTool(g.R)
+		if b == nil {
+			continue
+		}
+		g.Emit("ar", core.Hex(string(b)))
+		g.Emit("law-arfiles", append([]string{core.Hex(string(b))}, law...)...)
+	}
 }
